@@ -6,7 +6,7 @@ every loaded `sigma.*` module, so that every *call* `set(...)` / `frozenset(...)
 creates a PermSet / PermFrozenSet: a real set subclass whose iteration order is the elements
 sorted by repr() and then permuted according to `mode` (0 sorted, 1 reversed, 2 rotated by one,
 3 rotated by two; thorough tier: 4 reversed+rotated, 5 even then odd positions, 6 odd positions
-reversed then even, 7 ordered by the reversed text).  Any of these orders is a legitimate behaviour of a real set.
+reversed then even, 7 ordered by the reversed text, 8 rotated by half, 9 by length then reversed text, 10 / 11 ordered by a salted digest).  Any of these orders is a legitimate behaviour of a real set.
 Set displays / comprehensions and sets created by C code (dataclass default_factory=set captured
 at class creation) are not intercepted - the harness reports them by an AST scan.
 """
@@ -33,6 +33,14 @@ def _order(items):
         xs = xs[1::2][::-1] + xs[0::2]
     elif m == 7:  # ordered by the reversed text
         xs = sorted(xs, key=lambda x: repr(x)[::-1])
+    elif m == 8:  # rotated by half
+        xs = xs[len(xs) // 2:] + xs[: len(xs) // 2]
+    elif m == 9:  # by length, then reversed text
+        xs = sorted(xs, key=lambda x: (len(repr(x)), repr(x)[::-1]))
+    elif m in (10, 11):  # digest order (two salts): no relation to the alphabetical order at all
+        import hashlib
+
+        xs = sorted(xs, key=lambda x: hashlib.sha256((str(m) + repr(x)).encode()).digest())
     return xs
 
 
